@@ -598,3 +598,65 @@ func VFieldOf(f *types.Var, B func(ssa.Value) bool) func(ssa.Value) bool {
 		return ok && g == f && B(base)
 	}
 }
+
+// CallWhere refines a call matcher with predicates on its (full) argument list
+// positions (receiver included for static method calls) .
+func CallWhere(m CallM, argIdx int, pred func(ssa.Value) bool) CallM {
+	return func(c ssa.CallInstruction) bool {
+		if !m(c) {
+			return false
+		}
+		a := c.Common().Args
+		return argIdx < len(a) && pred(a[argIdx])
+	}
+}
+
+// RecvWhere refines an invoke-mode (or static method) call matcher with a receiver predicate.
+func RecvWhere(m CallM, pred func(ssa.Value) bool) CallM {
+	return func(c ssa.CallInstruction) bool {
+		if !m(c) {
+			return false
+		}
+		r := CallRecv(c)
+		return r != nil && pred(r)
+	}
+}
+
+// DynCallOf matches dynamic calls whose callee value satisfies pred.
+func DynCallOf(pred func(ssa.Value) bool) CallM {
+	return func(c ssa.CallInstruction) bool {
+		cc := c.Common()
+		if cc.IsInvoke() || cc.StaticCallee() != nil {
+			return false
+		}
+		return pred(cc.Value)
+	}
+}
+
+func VIs(x ssa.Value) func(ssa.Value) bool {
+	return func(v ssa.Value) bool { return x != nil && Strip(v) == Strip(x) }
+}
+
+// VSelfOrEmbedded: the value satisfies pred, or is the address of an embedded
+// field of a value satisfying pred (receivers of promoted methods).
+func VSelfOrEmbedded(pred func(ssa.Value) bool) func(ssa.Value) bool {
+	return func(v ssa.Value) bool {
+		for i := 0; i < 4; i++ {
+			if pred(v) {
+				return true
+			}
+			switch x := Strip(v).(type) {
+			case *ssa.FieldAddr:
+				if !fieldOfAddr(x).Embedded() {
+					return false
+				}
+				v = x.X
+			case *ssa.Field:
+				v = x.X
+			default:
+				return false
+			}
+		}
+		return false
+	}
+}
